@@ -1573,6 +1573,7 @@ func GetFilesChanged(from, to string) ([]string, error) {
 		"--no-commit-id",
 		"--name-only",
 		"-r",
+		"-z", // NUL-terminated, so that no path is ever quoted
 	}
 
 	if len(from) > 0 {
@@ -1595,8 +1596,11 @@ func GetFilesChanged(from, to string) ([]string, error) {
 		return nil, errors.New(tr.Tr.Get("failed to start `git diff-tree`: %v", err))
 	}
 	scanner := bufio.NewScanner(outp)
+	scanner.Split(tools.SplitOnNul)
 	for scanner.Scan() {
-		files = append(files, strings.TrimSpace(scanner.Text()))
+		if name := scanner.Text(); len(name) > 0 {
+			files = append(files, name)
+		}
 	}
 	if err := cmd.Wait(); err != nil {
 		return nil, errors.New(tr.Tr.Get("`git diff-tree` failed: %v", err))
